@@ -43,6 +43,13 @@ fn args(_tier: Tier) -> Vec<RE> {
         // rendering without quoting would coincide
         v.push(RE::reff("m1"));
         v.push(RE::reff("m2"));
+        // dates and durations that differ only below the millisecond, alone and inside a list
+        v.push(RE::reff("t1"));
+        v.push(RE::reff("t2"));
+        v.push(RE::reff("u1"));
+        v.push(RE::reff("u2"));
+        v.push(RE::List(vec![RE::reff("t1"), RE::reff("u1")]));
+        v.push(RE::List(vec![RE::reff("t2"), RE::reff("u2")]));
     }
     v
 }
@@ -59,6 +66,10 @@ fn facts_rv() -> RV {
     RV::map(&[
         ("m1", RV::map(&[("a", RV::Int(1)), ("b", RV::Int(2))])),
         ("m2", RV::map(&[("a: i1, b", RV::Int(2))])),
+        ("t1", RV::Dt(951_825_600, 123_000_000)),
+        ("t2", RV::Dt(951_825_600, 123_000_001)),
+        ("u1", RV::Dur(1_500_000_000)),
+        ("u2", RV::Dur(1_500_000_999)),
     ])
 }
 
@@ -321,8 +332,8 @@ pub fn run(tier: Tier) -> i32 {
     let argv = args(Tier::Thorough);
     // legs: (arguments used, call-sequence lengths, consecutive evaluations, bound on failing invocations)
     let legs: Vec<(usize, std::ops::RangeInclusive<usize>, usize, Option<u32>)> = match tier {
-        Tier::Quick => vec![(8, 0..=3, 2, None), (14, 2..=2, 1, None)],
-        Tier::Thorough => vec![(14, 0..=3, 2, None), (8, 0..=3, 3, None), (6, 4..=4, 2, Some(2))],
+        Tier::Quick => vec![(8, 0..=3, 2, None), (20, 2..=2, 1, None)],
+        Tier::Thorough => vec![(20, 0..=3, 2, None), (8, 0..=3, 3, None), (6, 4..=4, 2, Some(2))],
     };
     rep.bound("functions", "c1, c2 (cacheable), n1 (not cacheable)");
     rep.bound("arguments", argv.iter().map(|a| a.unparse().unwrap_or_default()).collect::<Vec<_>>());
@@ -371,6 +382,19 @@ pub fn run(tier: Tier) -> i32 {
         rep.absorb(acc);
         stats.add(&st);
         n_cases += 1;
+    }
+    // ten rules, each calling the same function once with its own argument: every failure
+    // pattern (2^10), so long failure streaks followed by successes are covered
+    {
+        let argv10: Vec<RE> = (0..10).map(|i| RE::Val(RV::Int(200 + i))).collect();
+        for f in 0..2usize {
+            let case = Case { calls: (0..10).map(|a| (f * 2, a)).collect(), split: vec![1; 10] };
+            let mut acc = Acc::new();
+            let st = check_case(&case, &argv10, 1, None, &mut acc);
+            rep.absorb(acc);
+            stats.add(&st);
+            n_cases += 1;
+        }
     }
     rep.bound("histories", n_cases);
     rep.states = stats.nodes + n_cases;
